@@ -89,16 +89,30 @@ func (api *HTTP) getMessages(ctx context.Context, lastSeen robust.Id, msgschan c
 	// Id=1431542836610113945.
 	// Hence, we need to Get(1431542836610113945.2) to send
 	// 1431542836610113945.3 and following to the client.
-	if msgs, ok := api.output().Get(lastSeen); ok && int(lastSeen.Reply) < len(msgs) {
-		select {
-		case <-ctx.Done():
-			return
-		case msgschan <- outputToRobustMessages(msgs[lastSeen.Reply:]):
+	//
+	// When this node has not yet applied the batch |lastSeen| points into
+	// (the client was connected to a node which is further ahead), that batch
+	// only shows up while we are waiting. |remainderDone| tracks whether the
+	// batch was seen; until then we ask for the position right before it, so
+	// that GetNext returns the batch itself once it arrives.
+	remainderDone := false
+	if msgs, ok := api.output().Get(lastSeen); ok {
+		remainderDone = true
+		if int(lastSeen.Reply) < len(msgs) {
+			select {
+			case <-ctx.Done():
+				return
+			case msgschan <- outputToRobustMessages(msgs[lastSeen.Reply:]):
+			}
 		}
 	}
 
 	for {
-		if msgs = api.output().GetNext(ctx, lastSeen); len(msgs) == 0 {
+		position := lastSeen
+		if !remainderDone && lastSeen.Id > 0 {
+			position = robust.Id{Id: lastSeen.Id - 1}
+		}
+		if msgs = api.output().GetNext(ctx, position); len(msgs) == 0 {
 			if ctx.Err() != nil {
 				return
 			}
@@ -116,6 +130,18 @@ func (api *HTTP) getMessages(ctx context.Context, lastSeen robust.Id, msgschan c
 			// Prevent busylooping while new messages are applied.
 			time.Sleep(250 * time.Millisecond)
 			continue
+		}
+
+		if !remainderDone {
+			remainderDone = true
+			if msgs[0].Id.Id == lastSeen.Id {
+				// The batch the client was interrupted in has arrived: skip
+				// the messages the client has already seen.
+				if int(lastSeen.Reply) >= len(msgs) {
+					continue
+				}
+				msgs = msgs[lastSeen.Reply:]
+			}
 		}
 
 		lastSeen = msgs[0].Id
